@@ -515,6 +515,22 @@ def ob_native_cluster():
         want = np.abs(np.array([u.pos for u in users]).reshape(-1, 1) - P.reshape(1, -1))
         if M.shape != want.shape or (not (np.abs(M - want).max() <= 1e-12 * max(1.0, np.abs(want).max()))):
             return {"distance matrix": True}
+        # both distance matrices are functions of the CURRENT positions: also after a cell was moved (its users travel with it)
+        for step in ("as built", "pos setter", "relative move"):
+            if step == "pos setter":
+                k = int(rr.randint(len(cells)))
+                cells[k].pos = cells[k].pos + complex(rr.uniform(-3, 3), rr.uniform(-3, 3)) * rad
+            elif step == "relative move":
+                k = int(rr.randint(len(cells)))
+                cells[k].move_by_relative_coordinate(complex(rr.uniform(-3, 3), rr.uniform(-3, 3)) * rad)
+            users = cl.get_all_users()
+            Pc = np.array([c_.pos for c_ in cl])
+            want = np.abs(np.array([u.pos for u in users]).reshape(-1, 1) - Pc.reshape(1, -1))
+            for meth in ("calc_dist_all_users_to_each_cell", "calc_dist_all_users_to_each_cell_no_wrap_around"):
+                M = getattr(cl, meth)()
+                if M.shape != want.shape or (not (np.abs(M - want).max() <= 1e-9 * max(1.0, np.abs(want).max()))):
+                    return {"distance matrix": meth, "state": step, "max |matrix - Euclidean distance to the current cell centres|":
+                            float(np.abs(M - want).max()) if M.shape == want.shape else "shape"}
         return None
     res = bounded(gen(), check)
     if res["status"] == "held":
